@@ -265,23 +265,25 @@ func prepare(r *cli.Repo, sc *Scenario) (args []string, strict []string, err err
 		if err := run("commit", "main", f1, "first", "-p", "id", "-n", "1"); err != nil {
 			return nil, nil, err
 		}
-		if err := run("commit", "dead", f2, "d1", "-p", "id", "-n", "1"); err != nil {
-			return nil, nil, err
+		// dead history: a fork with arms of different lengths (p <- a ; p <- b <- c <- d), a dead
+		// chain of its own, so that the deletion order of unreachable commits matters
+		steps := [][]string{
+			{"commit", "dead", f2, "p", "-p", "id", "-n", "1"},
+			{"branch", "create", "deadb", "dead"},
+			{"commit", "dead", f3, "a", "-p", "id", "-n", "1"},
+			{"commit", "deadb", f1, "b", "-p", "id", "-n", "1"},
+			{"commit", "deadb", f2, "c", "-p", "id", "-n", "1"},
+			{"commit", "deadb", f3, "d", "-p", "id", "-n", "1"},
+			{"commit", "dead2", f3, "e1", "-p", "id", "-n", "1"},
+			{"commit", "dead2", f2, "e2", "-p", "id", "-n", "1"},
+			{"branch", "delete", "dead"},
+			{"branch", "delete", "deadb"},
+			{"branch", "delete", "dead2"},
 		}
-		if err := run("commit", "dead", f3, "d2", "-p", "id", "-n", "1"); err != nil {
-			return nil, nil, err
-		}
-		if err := run("commit", "dead", f1, "d3", "-p", "id", "-n", "1"); err != nil {
-			return nil, nil, err
-		}
-		if err := run("commit", "dead2", f3, "e1", "-p", "id", "-n", "1"); err != nil {
-			return nil, nil, err
-		}
-		if err := run("branch", "delete", "dead"); err != nil {
-			return nil, nil, err
-		}
-		if err := run("branch", "delete", "dead2"); err != nil {
-			return nil, nil, err
+		for _, st := range steps {
+			if err := run(st...); err != nil {
+				return nil, nil, err
+			}
 		}
 		return []string{sc.Kind}, nil, nil
 	}
@@ -600,10 +602,59 @@ func killRun(r *cli.Repo, sc *Scenario, args []string, strict []string, work str
 			note = "want " + want + " got " + got
 		}
 		events = append(events, map[string]interface{}{"op": "rerun", "ok": code == 0, "same": got == want, "n": n, "note": note})
+		if code == 0 {
+			// the repository the re-run leaves behind must be consistent too (e.g. nothing
+			// half-written by the killed run may be trusted as complete)
+			x2 := &ids{m: map[string]int{}}
+			st2 := &state{Op: "state", Name: fmt.Sprintf("%s re-run after kill at write %d", sc.Kind, n)}
+			if db2, rs2, close2, err := rr.Open(); err == nil {
+				scan(db2, rs2, x2, st2, strict)
+				close2()
+				events = append(events, st2)
+			}
+		}
 		os.RemoveAll(dir)
 	}
 	os.RemoveAll(refDir)
 	return events, nil
+}
+
+// faultRun ingests a multi-block table once per store write k with that write failing: the
+// call must report an error, and what is left in the store must be consistent.
+func faultRun(sc *Scenario) []interface{} {
+	rng := rand.New(rand.NewSource(sc.Seed*17 + int64(sc.Idx)))
+	n := sc.Rows
+	if n == 0 {
+		n = 600
+	}
+	csvBytes := csvRows(rng, n, "f")
+	var events []interface{}
+	for k := 1; k < 200; k++ {
+		db := tbl.NewSafeStore()
+		cnt, hit := 0, false
+		db.Fail = func(key []byte) error {
+			cnt++
+			if cnt == k {
+				hit = true
+				return fmt.Errorf("injected failure of write %d", k)
+			}
+			return nil
+		}
+		_, err := tbl.Ingest(db, csvBytes, []string{"id"}, tbl.IngestOpts{Workers: 1 + (k%2)*5})
+		if !hit {
+			break // the operation has fewer than k writes
+		}
+		rs, sqldb, rerr := refs.NewMemStore()
+		if rerr != nil {
+			continue
+		}
+		st := &state{Op: "state", Name: fmt.Sprintf("ingest-fault write %d failed", k)}
+		scan(db, rs, &ids{m: map[string]int{}}, st, nil)
+		sqldb.Close()
+		events = append(events, st)
+		events = append(events, map[string]interface{}{"op": "fault", "n": k, "reported": err != nil})
+	}
+	return events
 }
 
 // Replay is the child handler of engine "crash".
@@ -611,6 +662,10 @@ func Replay(i int, raw []byte) child.Result {
 	var sc Scenario
 	if err := json.Unmarshal(raw, &sc); err != nil {
 		return child.Inconclusive(err)
+	}
+	if sc.Kind == "ingest-fault" {
+		child.EmitBatch("crash", faultRun(&sc))
+		return child.Pass(sc.Kind + "/fault")
 	}
 	work, err := os.MkdirTemp("", "crash")
 	if err != nil {
